@@ -94,6 +94,15 @@ func (fr *Frame) step(st *State, instr ssa.Instruction, b *ssa.BasicBlock, edgeC
 		fr.setReg(in, Val{T: fr.makeSlice(st, in.Type().Underlying().(*types.Slice).Elem(), ln, cp)})
 	case *ssa.MakeChan:
 		r := fr.newRef(st, "chan")
+		// a new channel is open and nothing has been sent on or received from it
+		ek := typeKey(chanElem(in.Type()))
+		for _, c := range []string{"ChanSentN_" + ek, "ChanRecvN_" + ek} {
+			ex.set(st, c, Store(ex.get(st, c, ArraySort(SRef, SInt)), r, IntLit(0)))
+		}
+		ex.set(st, "ChanClosed_"+ek, Store(ex.get(st, "ChanClosed_"+ek, ArraySort(SRef, SBool)), r, TFalse))
+		if sz := fr.val(st, in.Size); sz.T != nil {
+			fr.safety(st, "makechan", Le(IntLit(0), sz.T), in.Pos(), in)
+		}
 		fr.setReg(in, Val{T: r})
 	case *ssa.MakeClosure:
 		var bind []Val
